@@ -6,7 +6,9 @@ open CapyV.Defer
 mutual
 partial def stmtOfSexp : Sexp → Option Stmt
   | .list [.atom "print", .atom c] => c.toNat?.map .print
-  | .list [.atom "defer", .atom c] => c.toNat?.map .defer
+  -- `(defer 7)` = `defer print(7)`; `(defer <stmt> ...)` = `defer { ... }`
+  | .list [.atom "defer", .atom c] => c.toNat?.map Stmt.deferP
+  | .list (.atom "defer" :: body) => do some (.defer (← stmtsOfSexp body))
   | .list (.atom "block" :: .atom l :: body) => do
       let lab : Option Nat := if l = "-" then none else l.toNat?
       some (.block lab (← stmtsOfSexp body))
